@@ -60,7 +60,11 @@ def _hooks_of(env):
                                 "__max_iter__") if k in env}
 
 
-def call_method(func_node, self_state, args, extra=None):
+def call_method_kw(func_node, self_state, args, kwargs, extra=None):
+    return call_method(func_node, self_state, args, extra, kwargs)
+
+
+def call_method(func_node, self_state, args, extra=None, kwargs=None):
     """run `func_node` (a FunctionDef) with self bound to the dict `self_state` (field name -> python value)"""
     prm = A.params(func_node)
     env = {"__self__": self_state}
@@ -68,9 +72,14 @@ def call_method(func_node, self_state, args, extra=None):
     dflt = func_node.args.defaults
     names = prm[1:]
     vals = list(args)
+    kwargs = dict(kwargs or {})
     for i, n in enumerate(names):
         if i < len(vals):
+            if n in kwargs:
+                raise Raised("TypeError")      # multiple values for an argument
             env[n] = vals[i]
+        elif n in kwargs:
+            env[n] = kwargs.pop(n)
         else:
             j = i - (len(names) - len(dflt))
             if j < 0:
@@ -81,8 +90,17 @@ def call_method(func_node, self_state, args, extra=None):
         env[func_node.args.vararg.arg] = tuple(vals[len(names):])
     elif len(vals) > len(names):
         raise Raised("TypeError")
+    for kwo, kwd in zip(func_node.args.kwonlyargs, func_node.args.kw_defaults):
+        if kwo.arg in kwargs:
+            env[kwo.arg] = kwargs.pop(kwo.arg)
+        elif kwd is not None:
+            env[kwo.arg] = _ev(kwd, env)
+        else:
+            raise Raised("TypeError")
     if func_node.args.kwarg is not None:
-        env[func_node.args.kwarg.arg] = {}
+        env[func_node.args.kwarg.arg] = kwargs
+    elif kwargs:
+        raise Raised("TypeError")              # unexpected keyword argument
     try:
         _block(func_node.body, env)
     except _Ret as r:
@@ -657,9 +675,15 @@ def _ev(e, env):
             extra = {k: env[k] for k in ("__calls__", "__values__", "__isinstance__", "__methods__", "__globals__",
                                          "__global_lookup__", "__max_iter__") if k in env}
             mnode = env["__methods__"][e.func.attr]
+            kws_ = {}
+            for k_ in e.keywords:
+                if k_.arg is None:
+                    kws_.update(_ev(k_.value, env))
+                else:
+                    kws_[k_.arg] = _ev(k_.value, env)
             if any(A.dotted(d_) == "staticmethod" for d_ in mnode.decorator_list):
-                return call_function(mnode, _args(e, env), extra)
-            return call_method(mnode, env["__self__"], _args(e, env), extra)
+                return call_function(mnode, _args(e, env), extra, kws_)
+            return call_method(mnode, env["__self__"], _args(e, env), extra, kws_)
         if isinstance(e.func, ast.Attribute) and e.func.attr in ("upper", "lower", "strip", "join", "split", "startswith", "endswith", "format", "count",
                                                                   "replace", "rstrip", "lstrip", "encode", "decode"):
             base = _ev(e.func.value, env)
@@ -693,6 +717,19 @@ def _ev(e, env):
             if isinstance(v, ModelObj):
                 return v.cls
             raise AnalysisError("miniinterp: type() of a non-model value")
+        if d == "isinstance" and len(e.args) == 2:
+            v0_ = None
+            try:
+                v0_ = _ev(e.args[0], env)
+            except AnalysisError:
+                v0_ = None
+            if isinstance(v0_, Raised):
+                # an exception in flight (bound by `except .. as ex` / sys.exc_info()[1]) tested against exception classes
+                types_ = e.args[1].elts if isinstance(e.args[1], ast.Tuple) else [e.args[1]]
+                names_ = {A.src(t_) for t_ in types_}
+                if names_ & {"Exception", "BaseException", v0_.name}:
+                    return True
+                return bool(names_ & set(_EXC_PARENTS.get(v0_.name, [])))
         if d == "isinstance" and len(e.args) == 2 and "__isinstance__" in env:
             return env["__isinstance__"](_ev(e.args[0], env), A.src(e.args[1]))
         if d == "getattr" and len(e.args) in (2, 3) and isinstance(e.args[0], ast.Name) and env.get(e.args[0].id) == "__SELF__":
@@ -767,7 +804,16 @@ def _ev(e, env):
                 fv = _NOFUNC
             if fv is not _NOFUNC:
                 if callable(fv):
-                    return fv(*_args(e, env), **{k.arg: _ev(k.value, env) for k in e.keywords if k.arg})
+                    kws_ = {}
+                    for k_ in e.keywords:
+                        if k_.arg is None:
+                            try:
+                                kws_.update(dict(_ev(k_.value, env)))
+                            except (TypeError, ValueError):
+                                raise Raised("TypeError")
+                        else:
+                            kws_[k_.arg] = _ev(k_.value, env)
+                    return fv(*_args(e, env), **kws_)
                 raise Raised("TypeError")        # calling None / a non-callable
         raise AnalysisError("miniinterp: unsupported call %s" % A.src(e))
     raise AnalysisError("miniinterp: unsupported expression %s" % A.src(e))
